@@ -91,6 +91,64 @@ FIXED_POOL = [
 ]
 
 
+# ---- reductions (distance = left-to-right sum of |a_i - b_i|): vectors of 4..10 components whose differences have
+# very different magnitudes, so that the left fold differs from every other association / order of the sum
+U53, B53 = "3ca0000000000000", "4340000000000000"          # 2^-53, 2^53
+REDUCTION_POOL = [
+    [ONE, U53, U53, U53], [B53, ONE, ONE, ONE], [U53, U53, U53, U53, ONE], [P0, P0, P0, P0, P0],
+    [ONE] + [U53] * 7, [P0] * 8, [B53, ONE, ONE, ONE, ONE, ONE, ONE, ONE],
+]
+
+
+def reduction_case(rng):
+    n = rng.randint(4, 10)
+    big = rng.choice([1.0, 2.0 ** 53, 1e16, 3.0, 2.0 ** 60, 0.1])
+    ulp = big * 2.0 ** -53
+    kind = rng.random()
+    if kind < 0.35:        # one big term followed/preceded by half-ulps of it
+        d = [big] + [ulp * rng.choice([1.0, 1.0, 0.5, 1.5])] * (n - 1)
+    elif kind < 0.6:       # a big term at a random position among small ones
+        d = [ulp * rng.choice([1.0, 0.75, 1.25]) for _ in range(n)]
+        d[rng.randrange(n)] = big
+    elif kind < 0.8:       # geometric magnitudes
+        d = [big * 2.0 ** (-rng.randint(0, 60)) for _ in range(n)]
+    else:                  # arbitrary positive doubles of mixed exponents
+        d = [rng.random() * 2.0 ** rng.randint(-60, 60) for _ in range(n)]
+    if rng.random() < 0.5:
+        rng.shuffle(d)
+    # a - b = +-d: choose b, then a = b + d when that is exact enough; the plain (d, 0) pair always is
+    if rng.random() < 0.6:
+        a = [x * rng.choice([1.0, -1.0]) for x in d]
+        b = [0.0 * rng.choice([1.0, -1.0]) for _ in d]
+    else:
+        b = [rng.choice([0.0, 1.0, -2.0, big]) for _ in d]
+        a = [y + x for x, y in zip(d, b)]
+    if rng.random() < 0.5:
+        a, b = b, a
+    return [d2h(x) for x in a], [d2h(x) for x in b]
+
+
+def sum_order_sensitive(c):
+    """does some other order/grouping of the terms |a_i - b_i| give another double than the left fold?"""
+    if len(c["a"]) != len(c["b"]) or len(c["a"]) < 3:
+        return False
+    t = [abs(h2d(x) - h2d(y)) for x, y in zip(c["a"], c["b"])]
+    left = 0.0
+    for x in t:
+        left += x
+    right = 0.0
+    for x in reversed(t):
+        right += x
+    pair = 0.0
+    i = 0
+    while i + 3 < len(t):
+        pair += (t[i] + t[i + 1]) + (t[i + 2] + t[i + 3])
+        i += 4
+    for x in t[i:]:
+        pair += x
+    return d2h(left) != d2h(right) or d2h(left) != d2h(pair)
+
+
 def rand_scalar(rng):
     r = rng.random()
     if r < 0.7:
@@ -509,6 +567,16 @@ def run(ck):
             for b in pool:
                 cases.append(mk_case(rng, a, b))
         npair = len(pool) ** 2
+    nsens = 0
+    if not ck.replay_path:
+        # the reductions: fixed magnitude patterns (all ordered pairs of equal length) + seeded ones
+        for a in REDUCTION_POOL:
+            for b in REDUCTION_POOL:
+                if len(a) == len(b):
+                    cases.append(mk_case(rng, a, b))
+        for _ in range(8000 if ck.thorough else 800):
+            a, b = reduction_case(rng)
+            cases.append(mk_case(rng, a, b))
     if not ck.replay_path:
         nrand = 60000 if ck.thorough else 4000
         for _ in range(nrand):
@@ -534,6 +602,9 @@ def run(ck):
                 break
             common += 1
         if special or common > 0 or len(c["a"]) != len(c["b"]):
+            ck.nontriv((tuple(c["a"]), tuple(c["b"])))
+        if len(c["a"]) >= 4 and sum_order_sensitive(c):
+            nsens += 1
             ck.nontriv((tuple(c["a"]), tuple(c["b"])))
         if k < 2 or k % (len(cases) // 4 + 1) == 0:
             ck.sample({"case": case_line(c), "impl": ho, "model": mo})
@@ -569,10 +640,13 @@ def run(ck):
         ck.coverage["pool_triples_judged"] = n ** 3
         ck.coverage["pool_by_length"] = {str(l): sum(1 for v in pool if len(v) == l) for l in range(6)}
     ck.coverage["shape_histogram(len a/len b)"] = hist
+    ck.coverage["distance_cases_sensitive_to_summation_order"] = nsens
     return ck.finish(
         rule="all ordered pairs of a pool of bit-pattern vectors (fixed part: +-0, +-inf, denormals, extremes, equal "
              "prefixes, lengths 0..5; the rest seeded mutations) run through the real operators and the extracted model, "
              "all triples of the pool judged by the oracle on the implementation's answers, plus seeded random pairs "
              "(60% related by a mutation: changed component, +-0 swap, proper prefix, extension, neighbouring bit pattern); "
              "non-trivial = a pair with a zero/infinity/denormal component, a common prefix or different lengths; "
-             "distinct = distinct (a, b)")
+             "distinct = distinct (a, b); plus a reduction stream: vectors of 4..10 components whose differences have very "
+             "different magnitudes (a big term among half-ulps of it, geometric magnitudes, mixed exponents), counted "
+             "non-trivial when another order or grouping of the sum of |a_i-b_i| gives another double than the left fold")
